@@ -46,9 +46,10 @@ const (
 	nCase            // Abc, AbC, Abc0, AbC0: equal after lower-casing (but distinct handler file names), explicit digit suffixes
 	nFile            // PingTest, ListWindows, GetArm64, PushIos: snake-cased they end in a suffix the go tool gives a meaning (_test, _GOOS, _GOARCH)
 	nSameFile        // GetURL, GetUrl, PingTest, PingTestHandler: different handler names whose snake-cased file names coincide
+	nArch            // GetPPC, PushSparc64, AdS390, GetRiscv: GOARCH values go/build knows although no current port uses them
 )
 
-var schemeName = []string{"distinct", "same", "segment", "case-digit", "file-suffix", "same-file"}
+var schemeName = []string{"distinct", "same", "segment", "case-digit", "file-suffix", "same-file", "old-goarch-suffix"}
 
 func segmentName(p string) string {
 	segs := strings.Split(strings.Trim(p, "/"), "/")
@@ -73,6 +74,8 @@ func nameFor(scheme, i int, p string) string {
 		return []string{"PingTest", "ListWindows", "GetArm64", "PushIos"}[i%4]
 	case nSameFile:
 		return []string{"GetURL", "GetUrl", "PingTest", "PingTestHandler"}[i%4]
+	case nArch:
+		return []string{"GetPPC", "PushSparc64", "AdS390", "GetRiscv"}[i%4]
 	}
 	return fmt.Sprintf("H%d", i+1)
 }
@@ -196,11 +199,11 @@ func families(thorough bool) []*family {
 	deep := cross(get, []string{"/a", "/a/b", "/a/b/a", "/a/b/b", "/a/a/a", "/b/b/a", "/a/b/a/"})
 	// the empty service (no HTTP-annotated method) and handler names that turn into special file names
 	fs = append(fs, &family{name: "the empty route set x 8 option sets", lists: [][]pv{{}}, names: []int{nDistinct}, opts: all8})
-	add("pairs, handler names with go-tool file suffixes / coinciding file names, structure alphabet, depth<=2, root", small, 2, []int{nFile, nSameFile}, all8)
+	add("pairs, handler names with go-tool file suffixes / coinciding file names, structure alphabet, depth<=2, root", small, 2, []int{nFile, nSameFile, nArch}, all8)
 	upd := func(what string, items []pv, k int, schemes []int, opts []Opts) {
 		fs = append(fs, &family{name: "UPDATE (hz new with a prefix of the list, then hz update with the whole list, one process each): " + describe(what, items, k, schemes, opts), lists: sequences(items, k), names: schemes, opts: opts, update: true})
 	}
-	updItems := cross(get, []string{"/", "/a", "/a/b", "/b", "/a-b", "/a_b/c", "/v1/item", "/order-item"})
+	updItems := cross(get, []string{"/", "/a", "/a/b", "/b", "/a-b", "/a_b/c", "/v1/item", "/order-item", "/a_mwz/q"})
 	if !thorough {
 		upd("pairs", updItems, 2, []int{nDistinct, nSegment}, all8[:4])
 	} else {
